@@ -359,6 +359,21 @@ impl Scenario for C16 {
                     let mut want = vec![0u64; k as usize];
                     want[row] = 1u64 << col;
                     check!(m == want, "C16.cpc_row_col", "seed {seed} lg_k {lg_k} data {data} cuts {cuts:?}: want row {row} col {col}; got rows {:?}", m.iter().enumerate().filter(|(_, w)| **w != 0).collect::<Vec<_>>());
+                    // the same derivation must hold for a sketch handed out by a union configured with
+                    // that seed - also after the union was reduced to a smaller lg_k by a sparse input
+                    let lg_u = (*lg_k + 1 + (d.len() as u8 % 3)).min(16).max(*lg_k);
+                    let mut u = datasketches::cpc::CpcUnion::with_seed(lg_u, *seed);
+                    let mut first = CpcSketch::with_seed(lg_u, *seed);
+                    first.update(0x5eed_u64);
+                    lib_call("cpc union", || {
+                        u.update(&first);
+                        u.update(&sk);
+                    })?;
+                    let mut r = lib_call("CpcUnion::to_sketch", || u.to_sketch())?;
+                    let before = r.verif_bit_matrix();
+                    check!(r.lg_k() == *lg_k && before[row] >> col & 1 == 1, "C16.cpc_row_col", "seed {seed}: union result (lg_k {}) lost the item's pair (row {row}, col {col})", r.lg_k());
+                    lib_call("cpc.update(union result)", || r.update(Chunks { data: &d, cuts }))?;
+                    check!(r.verif_bit_matrix() == before, "C16.cpc_row_col", "seed {seed} lg_k {lg_k} data {data}: offering the same item to the union's result changed its matrix (the result derives rows / columns with another seed)");
                     st.lib_calls += 1;
                     st.nontrivial |= !cuts.is_empty();
                 }
